@@ -369,6 +369,7 @@ impl Check for C02 {
         self.grid_runs(tier)
             + HELPER_RUNS
             + vmgen::operand_cells() as u64
+            + vmgen::small_cells() as u64
             + match tier {
                 Tier::Quick => 400_000,
                 Tier::Thorough => 40_000_000,
@@ -384,6 +385,9 @@ impl Check for C02 {
         } else if run < grid + HELPER_RUNS + vmgen::operand_cells() as u64 {
             // the enumerated operand grid (every int / float instruction x every ordered pair of boundary literals)
             Sc::Flight(vmgen::gen_operand_cell((run - grid - HELPER_RUNS) as usize))
+        } else if run < grid + HELPER_RUNS + (vmgen::operand_cells() + vmgen::small_cells()) as u64 {
+            // the small-scope enumeration of exec-structural programs
+            Sc::Flight(vmgen::gen_small_cell((run - grid - HELPER_RUNS) as usize - vmgen::operand_cells()))
         } else {
             let mut sc = vmgen::gen_scenario(g, Bias::Balanced);
             // bias: faults land right before instructions, early in the program
